@@ -544,6 +544,23 @@ func (b *GRPCBroker) knock(id uint32) error {
 
 	// Wait for the ack.
 	p := b.getClientStream(id)
+
+	// The entry is used up once the ack has arrived (or has been given up
+	// on). Remove it here rather than leaving that to timeoutWait: a later
+	// knock for the same ID must not pick up an entry that the timeoutWait of
+	// this one deletes while that knock is waiting on it - the ack would
+	// then be delivered to a fresh entry nobody waits on.
+	defer func() {
+		b.Lock()
+		if b.clientStreams[id] == p {
+			delete(b.clientStreams, id)
+		}
+		b.Unlock()
+		p.once.Do(func() {
+			close(p.doneCh)
+		})
+	}()
+
 	select {
 	case msg := <-p.ch:
 		if msg.ServiceId != id {
